@@ -64,7 +64,7 @@ func (d Driver) Run(c *core.Ctx) {
 		return
 	}
 	// stage (a)
-	nh := int64(c.N(50, 600))
+	nh := int64(c.N(150, 600))
 	for i := int64(0); i < nh; i++ {
 		if !c.Want(i) {
 			continue
@@ -72,7 +72,7 @@ func (d Driver) Run(c *core.Ctx) {
 		runHistory(c, i, c.RNG(i))
 	}
 	// stage (b)
-	np := int64(c.N(1500, 5000))
+	np := int64(c.N(4000, 5000))
 	var pool *vpool
 	for i := int64(0); i < np; i++ {
 		if !c.Want(purityBase + i) {
@@ -92,7 +92,7 @@ func (d Driver) Run(c *core.Ctx) {
 // instrumented runs alternating, the first run of the process is a bare one).
 func runRaceBatch(c *core.Ctx, j int) {
 	G := []int{2, 4, 8, 16}[j%4]
-	runs, n := 2, 1500
+	runs, n := 3, 2000
 	if !c.Quick() {
 		runs, n = 4, 8000
 	}
